@@ -38,6 +38,9 @@ def tasks_pool():
     T.append((EstimationTask(PauliSum([PauliTerm("I0", 4.0), Z([0], 2.0), Z([1], -3.0)]), C.Circuit([C.X(1)], n_qubits=2), 0), "zero-shot", [0.0]))
     # an operator as written by a user (not simplified): the same Z-support listed several times with different coefficients
     T.append((EstimationTask(PauliSum([Z([0], 2.0), Z([1], 0.5), Z([0], 3.0), Z([1, 0], 4.0), Z([0, 1], -1.0)]), C.Circuit([C.X(0)], n_qubits=2), 4), "measured", [-2.0, 0.5, -3.0, -4.0, 1.0]))
+    # a bare PauliTerm (not a sum) on two / three qubits as the operator of a measured task: exactly one value
+    T.append((EstimationTask(Z([0, 2], 1.5), C.Circuit([C.X(0)], n_qubits=3), 3), "measured", [-1.5]))
+    T.append((EstimationTask(Z([2, 0, 1], -0.25), C.Circuit([C.X(1), C.X(2)], n_qubits=3), 2), "measured", [-0.25]))
     return T
 
 
@@ -175,7 +178,54 @@ def exact_case(case):
         v = np.asarray(r.values, dtype=complex).reshape(-1)
         if len(v) != 1 or abs(v[0] - e) > 1e-9:
             return {"ok": False, "msg": "exact expectation value of task %d is not the quadratic form of the state with the operator" % k, "expected": float(e), "observed": str(v.tolist()), "sig": "exact:value"}
-    return {"ok": True, "nt": True, "ops": len(tasks), "out": "exact"}
+    # the same task / operator objects evaluated again after the operators' coefficients were rescaled in place (a sweep over a coupling constant):
+    # the exact value is the quadratic form of the operator as it is NOW
+    for t in tasks:
+        terms = t.operator.terms if hasattr(t.operator, "terms") else [t.operator]
+        for j, term in enumerate(terms):
+            term.coefficient = term.coefficient * (2.0 if j % 2 == 0 else -0.5)
+    exps2 = []
+    for t in tasks:
+        terms = t.operator.terms if hasattr(t.operator, "terms") else [t.operator]
+        desc = [[complex(term.coefficient), {str(q): p_ for q, p_ in term.operations}] for term in terms]
+        exps2.append(np.vdot(psi, rp.sum_matrix(desc, n) @ psi).real)
+    res = calculate_exact_expectation_values(SymbolicSimulator(), tasks)
+    for k, (r, e) in enumerate(zip(res, exps2)):
+        v = np.asarray(r.values, dtype=complex).reshape(-1)
+        if len(v) != 1 or abs(v[0] - e) > 1e-9:
+            return {"ok": False, "msg": "second exact evaluation of task %d after its operator's coefficients were changed in place: not the quadratic form of the operator as it is now" % k,
+                    "expected": float(e), "observed": str(v.tolist()), "sig": "exact:second-call"}
+    return {"ok": True, "nt": True, "ops": 2 * len(tasks), "out": "exact"}
+
+
+def wide_case(case):
+    """{'n': n, 'ones': [qubits set to 1], 'terms': [[coef, [qubits]] ...], 'shots': k}: basis states of 9-11 qubits and Z-terms coupling a qubit >= 8 with lower ones:
+    exact values and estimates by averaging are coefficient x eigenvalue, one value per term"""
+    from orquestra.quantum import circuits as C
+    from orquestra.quantum.api.estimation import EstimationTask
+    from orquestra.quantum.estimation import calculate_exact_expectation_values, estimate_expectation_values_by_averaging
+    from orquestra.quantum.operators import PauliTerm, PauliSum
+    from orquestra.quantum.runners.symbolic_simulator import SymbolicSimulator
+    n, ones = case["n"], case["ones"]
+    circ = C.Circuit([C.X(q) for q in ones], n_qubits=n)
+    terms = [PauliTerm({q: "Z" for q in qs}, c) if qs else PauliTerm("I0", c) for c, qs in case["terms"]]
+    exp = [c * (-1) ** sum(1 for q in qs if q in ones) for c, qs in case["terms"]]
+    op = PauliSum(terms)
+    res = calculate_exact_expectation_values(SymbolicSimulator(), [EstimationTask(op, circ, None)] + [EstimationTask(t, circ, 0) for t in terms])
+    got = [np.asarray(r.values, dtype=complex).reshape(-1) for r in res]
+    if len(got[0]) != 1 or abs(got[0][0] - sum(exp)) > 1e-9 or any(len(g) != 1 or abs(g[0] - e) > 1e-9 for g, e in zip(got[1:], exp)):
+        return {"ok": False, "msg": "exact expectation values on %d qubits (state with ones at %s) are not the eigenvalue sums" % (n, ones), "expected": str([sum(exp)] + exp), "observed": str([g.tolist() for g in got]), "sig": "wide:exact"}
+    with seams.owned_rng(seams.Script()):
+        est = estimate_expectation_values_by_averaging(SymbolicSimulator(seed=5), [EstimationTask(op, circ, case["shots"])] + [EstimationTask(t, circ, case["shots"]) for t in terms if not t.is_constant])
+    vals = np.asarray(est[0].values).reshape(-1)
+    if len(vals) != len(exp) or not np.allclose(vals, exp, atol=1e-12):
+        return {"ok": False, "msg": "estimate by averaging on %d qubits: term values are not coefficient x eigenvalue" % n, "expected": str(exp), "observed": str(vals.tolist()), "sig": "wide:estimate"}
+    singles = [e for (c, qs), e in zip(case["terms"], exp) if qs]
+    for r, e in zip(est[1:], singles):
+        v = np.asarray(r.values).reshape(-1)
+        if len(v) != 1 or abs(v[0] - e) > 1e-12:
+            return {"ok": False, "msg": "estimate of a bare PauliTerm task on %d qubits: %s, expected exactly one value %s" % (n, v.tolist(), e), "sig": "wide:estimate-term"}
+    return {"ok": True, "nt": True, "ops": 2 + 2 * len(terms), "out": "n%d" % n}
 
 
 def bind_case(case):
@@ -209,13 +259,14 @@ def bind_case(case):
     return {"ok": True, "nt": len(tasks) >= 2, "ops": len(tasks), "out": "bind"}
 
 
-FUNCS = {"task_lists": list_case, "split": split_case, "shot_sweep": shots_case, "exact": exact_case, "binding": bind_case}
+FUNCS = {"wide": wide_case, "task_lists": list_case, "split": split_case, "shot_sweep": shots_case, "exact": exact_case, "binding": bind_case}
 
 
 def run(run):
     thorough = run.tier == "thorough"
     L = 5 if thorough else 4
-    lists = [list(c) for k in range(0, L + 1) for c in itertools.product(range(8), repeat=k)] + [list(c) for k in (1, 2, 3) for c in itertools.product(range(9), repeat=k) if 8 in c]
+    lists = [list(c) for k in range(0, L + 1) for c in itertools.product(range(8), repeat=k)] + [list(c) for k in (1, 2, 3) for c in itertools.product(range(9), repeat=k) if 8 in c] + \
+            [list(c) for k in (1, 2, 3) for c in itertools.product((0, 3, 5, 9, 10), repeat=k) if 9 in c or 10 in c]
     secs = [Section("task_lists", [{"tasks": l} for l in lists], list_case, horizon=120, desc="every task list of length <= %d over 8 tasks of the three kinds" % L),
             Section("split", [{"tasks": l} for l in lists if len(l) <= 3], split_case, desc="split_estimation_tasks_to_measure partitions positions in ascending order")]
     sw = [{"bits": list(b), "shots": s} for b in itertools.product((0, 1), repeat=3) for s in (1, 2, 3, 7, 8, 9, 10, 20)]
@@ -229,6 +280,13 @@ def run(run):
             for combo in itertools.product(range(len(A)), repeat=ln):
                 ex.append({"ops": [A[i] for i in combo], "n": n, "operators": list(range(len(OPS_XY)))})
     secs.append(Section("exact", ex, exact_case, horizon=120, desc="calculate_exact_expectation_values vs psi^dagger M psi (operators with X/Y terms)"))
+    wd = []
+    for n in ((9, 10, 11) if thorough else (9, 10)):
+        hi = n - 1
+        terms = [[1.5, [1, 8]], [-0.5, [3, 8]], [2.0, [hi]], [0.25, [0, hi]], [-1.0, [2, hi, 5]], [3.0, []], [0.75, [hi - 1, hi]], [1.25, [8, 1, 2]]]
+        for ones in ([8], [1, 8], [hi, 2], [0, 3, hi - 1], []):
+            wd.append({"n": n, "ones": ones, "terms": terms, "shots": 3 if len(ones) % 2 else 2 ** n + 5})
+    secs.append(Section("wide", wd, wide_case, horizon=600, chunk=1, desc="basis states of 9-10 (thorough 11) qubits, Z-terms coupling qubits 8+ with lower ones: exact values and estimates, sums and bare terms"))
     MV = [[0.3, -1.1], [2.5, 0.7], [-0.4, 0.0]]
     bc = []
     for k in range(0, 4):
